@@ -336,7 +336,7 @@ func c06Configs(run *vk.Run) []Cfg {
 func TestC06(t *testing.T) {
 	run := vk.NewRun("C06", "fault_enumeration")
 	defer run.Finish()
-	run.SetRule("for every distinct state/history of the BFS over {Append slices, accepted DeleteRanges, Restart} (depth d) and every (batch size, flavour): (a) clean Stop/Start must reproduce the full observation vector; (b) every prefix of the datastore commit log (each direct write and each batch commit atomic) is reopened with a fresh Store and checked; (c) every placement of 1..3 consecutive failing flush writes (batch creation / commit) is run to quiescence and checked; distinct = distinct recovered observation vectors")
+	run.SetRule("for every distinct state/history of the BFS over {Append slices, accepted DeleteRanges, Restart} (depth d; plus three fixed depth-4 histories that once exposed defects) and every (batch size, flavour): (a) clean Stop/Start must reproduce the full observation vector; (b) every prefix of the datastore commit log (each direct write and each batch commit atomic) is reopened with a fresh Store and checked; (c) every placement of 1..3 consecutive failing flush writes (batch creation / commit) is run to quiescence and checked; distinct = distinct recovered observation vectors")
 	run.Assume("crash granularity: a direct Put/Delete or one Batch.Commit is atomic; faults in DeleteRange itself are covered by C08")
 
 	var rc c06Case
@@ -378,6 +378,14 @@ func TestC06(t *testing.T) {
 		if r.Capped {
 			run.NotExhaustive("time budget hit during restart exploration of " + cfg.String())
 		}
+		// histories beyond the depth of the quick tier that once exposed a defect: always run, with
+		// the full restart and crash-point enumeration
+		for _, hist := range c06RegressionHistories {
+			if step := c06Restart(t, run, cfg, hist); !step.Skip {
+				c06Crash(t, run, cfg, hist)
+			}
+			run.AddEval(1)
+		}
 		q := vk.NewWorkQueue(len(r.Histories))
 		vk.Shards(t, vk.NumShards(), func(t *testing.T, shard int) {
 			for {
@@ -410,6 +418,14 @@ func TestC06(t *testing.T) {
 		}
 	}
 	run.AddStates(int64(states))
+}
+
+// c06RegressionHistories: see F22 (a header only in the pending batch below a pointer that
+// DeleteRange writes directly) and F19 (pending headers deleted, pointers never flushed).
+var c06RegressionHistories = [][]Op{
+	{{K: "append", Lo: 1, Hi: 1}, {K: "burstrestart", Lo: 3, Hi: 5}, {K: "append", Lo: 2, Hi: 2}, {K: "delete", From: 5, To: 6}},
+	{{K: "append", Lo: 4, Hi: 4}, {K: "append", Lo: 1, Hi: 2}, {K: "append", Lo: 3, Hi: 3}, {K: "delete", From: 1, To: 2}},
+	{{K: "append", Lo: 1, Hi: 1}, {K: "append", Lo: 3, Hi: 3}, {K: "append", Lo: 2, Hi: 2}, {K: "delete", From: 1, To: 3}},
 }
 
 func logKeys(l []vk.LogEntry) []string {
